@@ -45,6 +45,7 @@ func constString(v ssa.Value) (string, bool) {
 
 func rulesC11(c *Ctx) {
 	p := c.P
+	ruleC11Verbatim(c)
 	// --- grammar table -------------------------------------------------------------------
 	g4, err := os.ReadFile(filepath.Join(p.Root, "zitiql", "ZitiQl.g4"))
 	if err != nil {
@@ -432,4 +433,95 @@ func replacerPairs(c *Ctx, recv ssa.Value) ([][2]string, string) {
 		pairs = append(pairs, [2]string{vals[i], vals[i+1]})
 	}
 	return pairs, ""
+}
+
+// ruleC11Verbatim: (a) the text the lexer reads is the text the caller passed: the argument of
+// antlr.NewInputStream is a parameter handed through, unchanged, from the exported entry points
+// (nothing rewrites the query text — whitespace inside string literals is part of the literal);
+// (b) ast.Parse produces a query only through the grammar: every successful return has passed the
+// call of the zitiql parser, except for the empty filter.
+func ruleC11Verbatim(c *Ctx) {
+	p := c.P
+	cg := p.CallGraph()
+	newInput := p.ExtFunc("github.com/antlr4-go/antlr/v4", "NewInputStream")
+	n := 0
+	var verbatim func(fn *ssa.Function, v ssa.Value, depth int) (bool, string)
+	verbatim = func(fn *ssa.Function, v ssa.Value, depth int) (bool, string) {
+		prm, isParam := v.(*ssa.Parameter)
+		if !isParam {
+			return false, FnName(fn) + " passes " + describeValue(v) + " instead of the text it was given"
+		}
+		if depth > 5 {
+			return true, ""
+		}
+		idx := -1
+		for i, q := range fn.Params {
+			if q == prm {
+				idx = i
+			}
+		}
+		for _, caller := range cg.callers[fn] {
+			if strings.HasPrefix(caller.Name(), "zzControl") {
+				continue
+			}
+			for _, call := range callsIn(caller) {
+				if call.Common().StaticCallee() != fn || idx >= len(call.Common().Args) {
+					continue
+				}
+				if ok, why := verbatim(caller, call.Common().Args[idx], depth+1); !ok {
+					return false, why
+				}
+			}
+		}
+		return true, ""
+	}
+	for _, fn := range c.prodFuncs("zitiql", "ast") {
+		for _, call := range callsIn(fn) {
+			if !isCallTo(call, newInput) {
+				continue
+			}
+			n++
+			c.Analysed(FnName(fn))
+			ok, why := verbatim(fn, call.Common().Args[0], 0)
+			c.Check(ok, "C11.VERBATIM", FnName(fn)+": lexer input", p.Pos(call.Pos()), "the lexer reads exactly the text given to the exported parse functions", "the query text is rewritten before it reaches the lexer: "+why+" (a transformation of the whole text also changes the inside of string literals)")
+		}
+	}
+	c.Floor("C11.VERBATIM", 1)
+	// (b)
+	parse := p.SSAFunc(p.Func("ast", "Parse"))
+	c.Analysed(FnName(parse))
+	fi := factsOf(parse)
+	isGrammar := func(in ssa.Instruction) bool {
+		cal, _ := calleeOf2(in)
+		return cal != nil && cal.Pkg() != nil && cal.Pkg().Path() == modPath+"/zitiql" && strings.HasPrefix(cal.Name(), "Parse") && cal.Name() != "ParseZqlString" && cal.Name() != "ParseZqlDatetime"
+	}
+	emptyEdge := func(from, to *ssa.BasicBlock) bool {
+		for f := range fi.edgeFacts(from, to) {
+			bo, isB := f.V.(*ssa.BinOp)
+			if !isB || f.Kind != "true" {
+				continue
+			}
+			k, isK := bo.Y.(*ssa.Const)
+			if !isK || k.Value == nil || k.Value.Kind() != constant.String || constant.StringVal(k.Value) != "" {
+				continue
+			}
+			if _, isPrm := bo.X.(*ssa.Parameter); !isPrm {
+				continue
+			}
+			if (bo.Op == token.EQL && f.Pol) || (bo.Op == token.NEQ && !f.Pol) {
+				return true
+			}
+		}
+		return false
+	}
+	ok := noPathAvoidingSuccess(parse, fi, isGrammar, emptyEdge)
+	c.Check(ok, "C11.VERBATIM", FnName(parse)+": only through the grammar", p.Pos(parse.Pos()), "every query ast.Parse returns was produced by the zitiql parser (the empty filter excepted)", "ast.Parse can return a query without running the zitiql parser: a shortcut that interprets filter text itself does not decode string literals the way the grammar does")
+}
+
+func calleeOf2(in ssa.Instruction) (*types.Func, bool) {
+	call, ok := in.(ssa.CallInstruction)
+	if !ok {
+		return nil, false
+	}
+	return calleeOf(call.Common())
 }
